@@ -33,8 +33,14 @@ let parse_call (s : string) : call =
   | 'I' | 'V' -> COther
   | _ -> failwith "call"
 
-let parse_history (spec : string) : stepin list =
-  List.map (fun st ->
+(* environment input: "an:<names of step 0>/<names of step 1>/..." (hex, ',' separated, '-' = none) *)
+let parse_oracle (o : string) : n list list list =
+  let o = if starts_with o "an:" then String.sub o 3 (String.length o - 3) else o in
+  List.map (fun st -> if st = "-" || st = "" then [] else List.map bytes_of_hex (String.split_on_char ',' st))
+    (String.split_on_char '/' o)
+
+let parse_history ?(oracle = []) (spec : string) : stepin list =
+  List.mapi (fun k st ->
       let calls = match String.index_opt st ':' with
         | Some i -> String.sub st (i + 1) (String.length st - i - 1)
         | None -> "" in
@@ -45,7 +51,8 @@ let parse_history (spec : string) : stepin list =
             match String.split_on_char '*' arg with
             | [ ty; n ] -> (bytes_of_hex ty, n_of_dec n)
             | _ -> failwith "arrival") (List.filter is_p toks);
-        in_calls = List.map parse_call (List.filter (fun c -> not (is_p c)) toks) })
+        in_calls = List.map parse_call (List.filter (fun c -> not (is_p c)) toks);
+        in_announced = (match List.nth_opt oracle k with Some l -> l | None -> []) })
     (String.split_on_char '/' spec)
 
 let string_of_cres = function
@@ -61,24 +68,26 @@ let ev_of_string = function
   | "UnregOK" -> EUnregOK | "UnregNotFound" -> EUnregNotFound | "Metrics" -> EMetrics | "closed" -> EClosed
   | s -> failwith ("event " ^ s)
 
-let string_of_sobs (o : sobs) : string =
+let string_of_sobs (ann : n list list) (o : sobs) : string =
   let chans = List.sort_uniq compare (List.map (fun (ch, _) -> int_of_n ch) o.so_events) in
   let ev = String.concat ";" (List.map (fun ch ->
       string_of_int ch ^ ":" ^
       String.concat "." (List.filter_map (fun (c, e) -> if int_of_n c = ch then Some (string_of_ev e) else None) o.so_events))
       chans) in
   let gb = List.sort compare (List.map hexs o.so_goodbyes) in
-  Printf.sprintf "r=%s|ev=%s|gb=%s|x=%s%s"
+  let an = List.sort compare (List.map hexs ann) in
+  Printf.sprintf "r=%s|ev=%s|gb=%s|an=%s|x=%s%s"
     (if o.so_results = [] then "-" else String.concat "," (List.map string_of_cres o.so_results))
     (if ev = "" then "-" else ev)
     (if gb = [] then "-" else String.concat "," gb)
+    (if an = [] then "-" else String.concat "," an)
     (if o.so_exited then "1" else "0")
     (if o.so_stuck then "|dead=stuck" else "")
 
 exception Dead of string
 let sobs_of_string (s : string) : sobs =
   match String.split_on_char '|' s with
-  | r :: ev :: gb :: x :: rest ->
+  | r :: ev :: gb :: _an :: x :: rest ->
     if rest <> [] && rest <> [ "dead=stuck" ] then raise (Dead (String.concat "|" rest));
     let strip p v = if starts_with v p then String.sub v (String.length p) (String.length v - String.length p) else failwith "field" in
     let r = strip "r=" r and ev = strip "ev=" ev and gb = strip "gb=" gb and x = strip "x=" x in
@@ -128,7 +137,10 @@ let run_case (line : string) : string =
        res_to_string (fun (((t, sub), full), server) -> hexs t ^ " " ^ opt_hex sub ^ " " ^ hexs full ^ " " ^ hexs server)
          (si_names ty nm host)
      | _ -> "SKIP")
-  | [ "c14"; spec ] -> String.concat " / " (List.map string_of_sobs (run (parse_history spec)))
+  | [ "c14"; spec ] -> String.concat " / " (List.map (string_of_sobs []) (run (parse_history spec)))
+  | [ "c14"; spec; orc ] ->
+    let h = parse_history ~oracle:(parse_oracle orc) spec in
+    String.concat " / " (List.map2 (fun i o -> string_of_sobs i.in_announced o) h (run h))
   | [ "c15h"; calls ] ->
     "r=" ^ String.concat "," (List.map c15_call (String.split_on_char ',' calls)) ^ "|alive=1"
   | [ "c15h" ] -> "r=-|alive=1"
@@ -138,10 +150,11 @@ let run_case (line : string) : string =
 (* ---- monitors ---- *)
 let mon_c14 (case : string list) (result : string) : string =
   match case with
-  | [ "c14"; spec ] ->
+  | "c14" :: spec :: orc ->
     (try
        let tr = List.map sobs_of_string (split_str " / " result) in
-       if chk_C14 (parse_history spec) tr then "PASS" else "FAIL shutdown property violated (chk_C14)"
+       let oracle = match orc with [ o ] -> parse_oracle o | _ -> [] in
+       if chk_C14 (parse_history ~oracle spec) tr then "PASS" else "FAIL shutdown property violated (chk_C14)"
      with Dead what -> "FAIL daemon thread " ^ what)
   | [ "stress_shutdown"; _; _; _ ] ->
     if result = "OK" || starts_with result "OK " then "PASS" else "FAIL " ^ result
